@@ -3,6 +3,7 @@ import DracoProofs.IOStl
 import DracoProofs.IOPly
 import DracoProofs.IOObj
 import DracoProofs.IOObjPoints
+import DracoProofs.IODecimal
 /-
   C15 — file formats: writing a geometry with the library's STL / PLY / OBJ encoder and reading the
   file back yields the same geometry (property theorems only; models in DracoModel/IO/*, proofs in
@@ -41,9 +42,17 @@ import DracoProofs.IOObjPoints
       property is false on meshes with two vertices closer than the 6-decimal resolution
       (`obj_weld_violation`, inside the property's stated tolerance).
 
-  `_partial` / not proved in Lean: that the C++ text codec (`snprintf("%F")` / `parser::ParseFloat`,
-  model `Obj.f32Codec`) satisfies `close b (r b)` with the bound 0.5·10⁻⁶ + ulp — it involves double
-  arithmetic; it is checked exactly (rational arithmetic) per value by `IO.checkCodecBits`.
+    * number text (`DracoModel/IO/Decimal.lean`): `obj_dec6_exact` — the decimal `printf("%F")` prints
+      for ANY finite float32 is within 0.5·10⁻⁶ of it (exact rational arithmetic, no floating point
+      hypothesis); `obj_print_exact` — below 2³⁶ the 20-byte buffer does not cut the text and its
+      digits denote that decimal; `obj_text_precision` — for ANY oracle of the `double` operations
+      of `parser::ParseFloat` with unit roundoff `u` and ANY `double → float` conversion with relative
+      error `u32`, the value read back from the printed text is within
+      0.5·10⁻⁶ + (|x| + 0.5·10⁻⁶)·((1+u)³⁵(1+u32) − 1) of `x`, nothing is left unread;
+      `obj_text_precision_ieee` — with u = 2⁻⁵³, u32 = 2⁻²⁴: ≤ 0.5·10⁻⁶ + (|x| + 0.5·10⁻⁶)·(2⁻²⁴ + 2⁻⁴⁷)
+      (≤ 0.5·10⁻⁶ + 1 ulp); `obj_text_nonfinite_unreadable` — `INF` / `NAN` are rejected by the reader.
+      Assumed, sampled by the check: the machine's binary64 `+`, `*`, the literal `0.1` and the
+      binary64 → binary32 conversion satisfy the rounding model (no overflow / underflow in range).
 -/
 namespace Draco.C15
 open Draco Draco.IO
@@ -250,6 +259,126 @@ theorem obj_precision (r : Nat → Nat) (a : Attribute) (k i : Nat) (h32 : ∀ b
 example : List.Forall₂ (fun b b' => b' = b % 2 ^ 32) (Obj.floatsAt exPos 1 3)
     (Obj.comps 3 (Obj.rtValue (· % 2 ^ 32) exPos 3 1)) :=
   obj_precision (· % 2 ^ 32) exPos 3 1 (fun _ => Nat.mod_lt _ (by decide)) _ (fun _ _ => rfl)
+
+/-! ## OBJ number text: `snprintf("%F")` and `parser::ParseFloat` -/
+
+open Draco.IO.Dec in
+/-- **Exact core of the OBJ precision claim.**  For every float32 bit pattern, the unsigned decimal
+    `dec6` that `printf("%F")` prints (`dec6Scaled / 10⁶`, the half-to-even rounding of the exact
+    binary value to 6 decimals) is within 0.5·10⁻⁶ of `|x|` (`f32Abs` = mantissa · 2^exponent).
+    Exact rational arithmetic, no floating point hypothesis, no range restriction. -/
+theorem obj_dec6_exact (bits : Nat) : |dec6 bits - f32Abs bits| ≤ 5 / 10000000 := dec6_close bits
+
+/-- 1.00000012 = 0x3f800001 prints as 1.000000: the bound is attained to within 24 % -/
+example : Dec.dec6Scaled 0x3f800001 = 1000000 ∧ Dec.f32Mant 0x3f800001 = 8388609 ∧
+    Dec.f32Exp 0x3f800001 = -23 := by decide
+
+open Draco.IO.Dec in
+/-- **The printed text denotes that decimal.**  For a finite float32 with `|x| < 2³⁶` (biased
+    exponent below 163) the 19 characters `snprintf` can store suffice, and the text is: `-` iff
+    the sign bit is set, the decimal digits of `⌊dec6⌋` without leading zeros, `.`, and the six
+    digits of the fraction; the digit lists have the stated values. -/
+theorem obj_print_exact (bits : Nat) (hfin : f32Finite bits = true) (he : (bits / 2^23) % 256 < 163) :
+    fmtChars bits = (if f32Neg bits then ['-'] else []) ++
+      (natDigits (dec6Scaled bits / 1000000)).map digitChar ++
+      '.' :: (fixedDigits 6 (dec6Scaled bits % 1000000)).map digitChar ∧
+    val (natDigits (dec6Scaled bits / 1000000)) = dec6Scaled bits / 1000000 ∧
+    val (fixedDigits 6 (dec6Scaled bits % 1000000)) = dec6Scaled bits % 1000000 :=
+  ⟨fmtChars_decimal bits hfin (dec6Scaled_lt bits he), val_natDigits _,
+    by rw [val_fixedDigits]; exact Nat.mod_eq_of_lt (Nat.mod_lt _ (by norm_num))⟩
+
+example : Dec.f32Finite 0xc479ffff = true ∧ (0xc479ffff / 2^23) % 256 < 163 ∧
+    Dec.fmtChars 0xc479ffff = "-999.999939".toList := by decide
+
+open Draco.IO.Dec in
+/-- **OBJ text precision, any rounding oracle.**  `ops`: any oracle for the `double` operations of
+    `parser::ParseFloat` on ℚ-valued numbers with unit roundoff `u` (`DecRounding`: `+`, `*` return
+    the exact result times `1 + δ`, `|δ| ≤ u`; `0.0`, `1.0`, `10.0` and digits exact; the literal
+    `0.1` is `(1/10)(1 + δ)`); `rn32`: any `double → float` conversion with relative error `u32`.
+    For every finite float32 `x` with `|x| < 2³⁶`: `ParseFloat` accepts the text `ObjEncoder`
+    prints for `x`, leaves nothing unread, and the float it returns satisfies
+    `|parse(print x) − x| ≤ 0.5·10⁻⁶ + (|x| + 0.5·10⁻⁶) · ((1+u)³⁵ (1+u32) − 1)`.
+    (Hypothesis left: that the machine arithmetic satisfies the rounding model.) -/
+theorem obj_text_precision (ops : DecOps ℚ) (rn32 : ℚ → ℚ) (u u32 : ℚ) (hu0 : 0 ≤ u) (hu1 : u ≤ 1)
+    (hu32 : 0 ≤ u32) (R : DecRounding ops u)
+    (h32 : ∀ v, ∃ δ : ℚ, |δ| ≤ u32 ∧ rn32 v = v * (1 + δ))
+    (bits : Nat) (hfin : f32Finite bits = true) (he : (bits / 2^23) % 256 < 163) :
+    ∃ p : Parsed ℚ, @parseCore ℚ ops (fmtChars bits) = some p ∧ p.rest = [] ∧ p.nanNeg = false ∧
+      |(if p.neg then -1 else 1) * rn32 p.mag - f32Val bits| ≤
+        5 / 10000000 + (f32Abs bits + 5 / 10000000) * ((1 + u)^35 * (1 + u32) - 1) :=
+  parse_print_close ops hu0 hu1 R rn32 hu32 h32 bits hfin he
+
+/-- exact arithmetic -/
+@[reducible] def exactDecOps : Dec.DecOps ℚ where
+  zero := 0
+  one := 1
+  ten := 10
+  tenth := 1/10
+  ofDigit d := d
+  add a b := a + b
+  mul a b := a * b
+  pow10 e := (10:ℚ)^e
+  inf := 0
+  nan := 0
+
+/-- every operation (and the literal 0.1) is off by the factor `1 + e` -/
+@[reducible] def biasedDecOps (e : ℚ) : Dec.DecOps ℚ where
+  zero := 0
+  one := 1
+  ten := 10
+  tenth := (1/10) * (1 + e)
+  ofDigit d := d
+  add a b := (a + b) * (1 + e)
+  mul a b := (a * b) * (1 + e)
+  pow10 z := (10:ℚ)^z
+  inf := 0
+  nan := 0
+
+theorem biasedDecOps_model (e u : ℚ) (h : |e| ≤ u) : Dec.DecRounding (biasedDecOps e) u where
+  zero := rfl
+  one := rfl
+  ten := rfl
+  tenth := ⟨e, h, rfl⟩
+  ofDigit _ _ := rfl
+  add _ _ := ⟨e, h, rfl⟩
+  mul _ _ := ⟨e, h, rfl⟩
+
+/-- non-vacuity: the hypotheses hold for a biased oracle (not exact), a conversion that is off by
+    `1 + 2⁻²⁵`, and the bit pattern of -999.999939 -/
+example : Dec.DecRounding (biasedDecOps (1/2^54)) (1/2^53) ∧
+    (∀ v : ℚ, ∃ δ : ℚ, |δ| ≤ 1/2^24 ∧ (fun v => v * (1 + 1/2^25)) v = v * (1 + δ)) ∧
+    Dec.f32Finite 0xc479ffff = true ∧ (0xc479ffff / 2^23) % 256 < 163 :=
+  ⟨biasedDecOps_model _ _ (by norm_num [abs_of_pos]), fun v => ⟨1/2^25, by norm_num [abs_of_pos], rfl⟩,
+    by decide, by decide⟩
+
+open Draco.IO.Dec in
+/-- **The same with IEEE-754 constants** (`u = 2⁻⁵³` for binary64, `u32 = 2⁻²⁴` for the conversion to
+    binary32): `|parse(print x) − x| ≤ 0.5·10⁻⁶ + (|x| + 0.5·10⁻⁶)·(2⁻²⁴ + 2⁻⁴⁷)`; since
+    `|x|·2⁻²⁴ < ulp(x)` this is the "6-decimal text precision plus float32 rounding" of the property. -/
+theorem obj_text_precision_ieee (ops : DecOps ℚ) (rn32 : ℚ → ℚ) (R : DecRounding ops (1/2^53))
+    (h32 : ∀ v, ∃ δ : ℚ, |δ| ≤ 1/2^24 ∧ rn32 v = v * (1 + δ))
+    (bits : Nat) (hfin : f32Finite bits = true) (he : (bits / 2^23) % 256 < 163) :
+    ∃ p : Parsed ℚ, @parseCore ℚ ops (fmtChars bits) = some p ∧ p.rest = [] ∧ p.nanNeg = false ∧
+      |(if p.neg then -1 else 1) * rn32 p.mag - f32Val bits| ≤
+        5 / 10000000 + (f32Abs bits + 5 / 10000000) * (1/2^24 + 1/2^47) := by
+  obtain ⟨p, h1, h2, h3, h4⟩ := obj_text_precision ops rn32 (1/2^53) (1/2^24) (by norm_num) (by norm_num)
+    (by norm_num) R h32 bits hfin he
+  refine ⟨p, h1, h2, h3, le_trans h4 ?_⟩
+  have hk : ((1:ℚ) + 1/2^53)^35 * (1 + 1/2^24) - 1 ≤ 1/2^24 + 1/2^47 := by norm_num
+  have ha := f32Abs_nonneg bits
+  have : (f32Abs bits + 5 / 10000000) * (((1:ℚ) + 1/2^53)^35 * (1 + 1/2^24) - 1) ≤
+      (f32Abs bits + 5 / 10000000) * (1/2^24 + 1/2^47) :=
+    mul_le_mul_of_nonneg_left hk (by positivity)
+  linarith
+
+open Draco.IO.Dec in
+/-- **Non-finite values cannot be read back**: `ObjEncoder` prints `INF` / `-INF` / `NAN` / `-NAN`
+    (`%F`), `parser::ParseFloat` knows `inf`, `Inf`, `nan`, `NaN` only and fails — for any
+    arithmetic. -/
+theorem obj_text_nonfinite_unreadable {D : Type} [DecOps D] (bits : Nat) (h : f32Finite bits = false) :
+    parseCore (D := D) (fmtChars bits) = none := parseCore_nonfinite bits h
+
+example : Dec.f32Finite 0x7f800000 = false ∧ Dec.fmtChars 0xff800000 = "-INF".toList := by decide
 
 /-! ## OBJ point clouds -/
 
